@@ -35,7 +35,7 @@ REQUIRED = {"line.selects_entity_scenarios": {"quick": 8000, "thorough": 500000}
             "setup_teardown.never_skipped": {"quick": 40, "thorough": 2000}}
 REQUIRED_SEEN = {"entity_kind_addressed": ["feature", "rule", "outline", "row", "scenario", "line0", "other_line", "beyond_end"],
                  "argument_list_shape": ["DL", "LD", "LL", "DLD"], "wildcard_listfile_place": ["working_directory", "sub_directory"],
-                 "name_selection_shape": ["pattern_matches_the_empty_name_of_an_untitled_scenario", "together_with_a_file_location", "in_a_dry_run"]}
+                 "name_selection_shape": ["pattern_matches_the_empty_name_of_an_untitled_scenario", "together_with_a_file_location", "in_a_dry_run", "row_titles_rendered_from_placeholders"]}
 EXHAUSTIVE = True
 EXHAUSTIVE_SCOPE = "every line number 0..last+2 of every generated document"
 NSHARDS = {"quick": 16, "thorough": 16}
@@ -74,6 +74,10 @@ class Doc(object):
                         for ex in it["examples"]:
                             if ex.get("header") is None:
                                 ex["header"], ex["rows"] = ["c"], [["1"]]
+                            simple = [h for h in ex["header"] if "|" not in h]
+                            if simple and rng.random() < 0.35:
+                                # an Examples title with a placeholder: the row titles carry the cell of that row ("Region-US")
+                                ex["name"] = "Region-<%s>" % rng.choice(simple)
         fix(a)
         if rng.random() < 0.3:
             # copy/paste twins: scenarios with the same keyword and the same title (at different lines) are different scenarios
@@ -374,15 +378,24 @@ def run(spec, mon):
                                 if ex.get("header") is None:
                                     continue
                                 for ri in range(len(ex["rows"])):
-                                    names_all.append(u"%s -- @%d.%d %s" % (it["name"], ei + 1, ri + 1, ex.get("name", "")))
+                                    # placeholders in the outline title and in the Examples title are filled from the row (plain
+                                    # textual substitution, as C06 states it)
+                                    oname, ename = it["name"], ex.get("name", "")
+                                    for h, v in zip(ex["header"], ex["rows"][ri]):
+                                        oname, ename = oname.replace("<%s>" % h, v), ename.replace("<%s>" % h, v)
+                                    names_all.append(u"%s -- @%d.%d %s" % (oname, ei + 1, ri + 1, ename))
                 written(doc.abstract)
                 # (read off a second parse: walking the scenarios of the model that is going to run would build the outline rows before
                 #  the run -- a plain `behave FILE -n PATTERN` builds them when it gets there)
                 parsed_names = [s.name for s in parse_features([FileLocation(doc.fname)])[0].walk_scenarios()]
                 if [n.strip() for n in parsed_names] != [n.strip() for n in names_all]:
-                    # (outline names with placeholders etc.: fall back to what the model says -- C04 / C06 own those texts)
+                    # (titles with placeholders of no column etc.: fall back to what the model says -- C04 / C06 own those texts)
+                    mon.count("name.fallback_to_parsed_names")
                     if any(("<" in n) for n in names_all) or len(parsed_names) != len(names_all):
                         names_all = parsed_names
+                elif any("<" in it.get("name", "") or any("<" in (ex.get("name") or "") for ex in it.get("examples", []))
+                         for it in doc.abstract["items"] if it["kind"] == "outline"):
+                    mon.seen("name_selection_shape", "row_titles_rendered_from_placeholders")
                 if not names_all:
                     continue
                 pats = []
@@ -391,7 +404,9 @@ def run(spec, mon):
                     pats.append(rng.choice([re.escape(nm.split(" ")[0]) + r"\b", r"^S\d", r"\d+ ", r"O\d+.*@1\.1", r"[13579] ", re.escape(nm[:6]), r"@\d\.2", "zzz-nomatch",
                                             re.escape(nm), re.escape(rng.choice(nm.split(" ") or [nm])) if nm else "zzz", r"Cafe\b", r"Caf.\b", r"^.{12}$",
                                             # patterns that (also) match the EMPTY name of a scenario without title
-                                            r"^$", r".*", r"x*", r"^(?!S)", r"^(?!.*\d)"]))
+                                            r"^$", r".*", r"x*", r"^(?!S)", r"^(?!.*\d)",
+                                            # the part of a row title that comes from a cell / the raw placeholder that must be gone
+                                            r"Region-\w", r"Region-<", re.escape(nm[-6:]) + "$" if nm else "zzz"]))
                 if doc.has_unnamed and any(re.search(p_, "") for p_ in pats):
                     mon.seen("name_selection_shape", "pattern_matches_the_empty_name_of_an_untitled_scenario")
                 want = [n for n in names_all if re.search("|".join(pats), n)]
